@@ -1,6 +1,24 @@
 HOOK_COMMITS = []
 NOT_APPLICABLE = {}
 CHECKS = {
+ "C05": {
+  "level": "exploration",
+  "technique": "runtime monitor: removal histories with reference-drop + gc + listing schedule; clauses over live API, raw file and re-opened file; concatenated-store audit of the closed file",
+  "text": "After every removal (victims: data in 0/1/several property groups incl. groups of another association, objects with children, nested groups, concatenated holes and their data; entry point workspace or parent) the driver drops its handles, runs the collector and reads the listings, then checks: no flat node, parent link, child list, property group (live, raw, re-opened), listing or look-up by uid/name yields a victim; every survivor's public record is unchanged; follow-up copies/removals succeed; refused removals (allow_delete off, also on concatenated entities) raise and change neither the public view nor any file node. Held on the counted removals only.",
+  "note": "Open known findings (index rows of removed holes stay in the closed file; a hole copy keeps the source hole alive) are reported as KNOWN-FINDING; removal of a subtree with a protected descendant is not generated.",
+ },
+ "C06": {
+  "level": "exploration",
+  "technique": "runtime monitor: identifier invariants evaluated after every operation of seeded create/copy/remove/re-create histories over two workspaces; refusal = exception + identical ApiSnapshot + identical node digests",
+  "text": "After each operation: uniqueness of uids over the union of the four listings and over the tree, get_entity(uid) is exactly the owner (identity), one live type per uid and one shared type per object/group class; explicit reuse of a uid in use (same kind and cross kind) must be refused with no change of the public view or of any file node; a freed uid (owner removed and collected) must be accepted; same-workspace copies must share no uid with anything existing (entity, children, property groups); copies to/from a second workspace must keep every uid that is free in the target and replace those in use. Flat containers of every closed file are checked for a uid stored twice. Held on the counted operations only.",
+  "note": "uuid4 collisions are not injected. Trusted: listings and get_entity are the public view.",
+ },
+ "C09": {
+  "level": "exploration",
+  "technique": "runtime monitor: per-node digests (plain h5py on the live handle) before/after every single API call, compared with a footprint computed from the reference model; no-op open/close digests and bytes",
+  "text": "Every operation of seeded histories is bracketed by two digest passes over all entity nodes, type nodes and the project header; any created, deleted or changed node (attributes/datasets separately from child-link lists) outside the operation's allowed footprint (target node, parents left/joined, created/deleted nodes, types introduced or no longer used by anything, the data's own type node) is a violation; opening and closing in r/r+/a without mutation must leave all digests (and, for r, the bytes) identical. Held on the counted (operation, node) pairs only.",
+  "note": "Footprints come from my TreeModel; lazily swept nodes of parent-removed entities may vanish at any later operation.",
+ },
  "C01": {
   "level": "exploration",
   "technique": "runtime monitor: seeded API histories under GC/reference schedules; differential ApiSnapshot live vs fresh re-open, executable TreeModel, raw flat-container audit",
